@@ -36,7 +36,6 @@ import (
 	"github.com/tendermint/tendermint/consensus"
 	"github.com/tendermint/tendermint/libs/autofile"
 	"github.com/tendermint/tendermint/types"
-
 )
 
 type raceCfg struct {
@@ -377,4 +376,3 @@ func runRaceCase(c vctx, idx int, base string) {
 		c.Distinct("race", idx, cfg.HeadLimit, cfg.TotalLimit, cfg.Ops, cfg.Rotator)
 	}
 }
-
